@@ -10,7 +10,7 @@
    PROVED (on the model of the FIXED compiler, fixes/const-*.diff):
    * the first half, for all programs of the mini-language at any nesting depth -- `const_never_written`;
    * the second half on a small evaluation model of the run-time variable store (Const/Eval.v: frames,
-     `store` = update-where-found-in-the-function-else-bind, `store_fast`/`unwrap_into` = top frame,
+     `store` = update-where-found-in-the-function-else-bind, `store_fast` = top frame (`unwrap_into` too before /repo 2ade5a8, since then like `store`),
      bin_op_assign, loop counter incl. delete_name_scoped; arbitrary values, branches, iteration counts,
      early exits) for the CLOSURE-FREE part of the mini-language -- `const_value_stable_partial`:
      every read of a binding created by a `const` declaration returns the value it was created with.
